@@ -573,6 +573,8 @@ FLOW_THROUGH = (
     'std::pin::Pin::new_unchecked', 'std::borrow::ToOwned::to_owned', 'std::string::ToString::to_string',
     'std::option::Option::cloned', 'std::option::Option::copied', 'std::option::Option::unwrap_or_default',
     'std::option::Option::unwrap_or', 'std::result::Result::and_then', 'std::option::Option::and_then',
+    'std::convert::TryInto::try_into', 'std::convert::TryFrom::try_from', 'std::sync::Mutex::new', 'std::sync::Arc::new',
+    'std::option::Option::ok_or_else', 'std::result::Result::map_err',
 )
 
 
@@ -624,8 +626,8 @@ def sources(an, op, extra_through=(), limit=400):
         elif len(p.proj) >= 2 and p.proj[0].startswith('@') and p.proj[1].startswith('.'):
             sel = p.proj[1][1:]
         key = (p.local, sel)
-        if flds:
-            out.add(('field', '%s.%s' % (flds[-1][0], flds[-1][1])))
+        for fo, fn_ in flds:
+            out.add(('field', '%s.%s' % (fo, fn_)))
         if key in seen:
             continue
         seen.add(key)
@@ -722,3 +724,64 @@ def reach_without_edges(an, src, banned_edges, kinds=('normal',), include_src=Fa
         x = work.pop()
         push(x)
     return seen
+
+
+
+# ---------------------------------------------------------------------------
+# path-sensitive refinement for drop audits
+
+def split_generic_args(ty):
+    """top-level generic arguments of `Path<A, B<C>, D>` -> ['A', 'B<C>', 'D']"""
+    i = ty.find('<')
+    if i < 0 or not ty.endswith('>'):
+        return []
+    inner = ty[i + 1:-1]
+    out = []; depth = 0; cur = ''
+    for ch in inner:
+        if ch in '<([':
+            depth += 1
+        elif ch in '>)]':
+            depth -= 1
+        if ch == ',' and depth == 0:
+            out.append(cur.strip()); cur = ''
+        else:
+            cur += ch
+    if cur.strip():
+        out.append(cur.strip())
+    return out
+
+
+def payload_ty(ty, variant):
+    """type of the payload held by `variant` of a well-known enum type string, '' if none, None if unknown"""
+    args = split_generic_args(ty)
+    head = ty.split('<', 1)[0]
+    if head == 'std::option::Option':
+        return args[0] if variant == 'Some' else ''
+    if head == 'std::task::Poll':
+        return args[0] if variant == 'Ready' else ''
+    if head == 'std::result::Result' and len(args) == 2:
+        return args[0] if variant == 'Ok' else args[1]
+    if head == 'std::ops::ControlFlow' and len(args) >= 1:
+        if variant == 'Break':
+            return args[0]
+        return args[1] if len(args) > 1 else '()'
+    return None
+
+
+def variants_at(an, bb, local):
+    """variant names the whole local `local` can have at bb, from dominating switches on its discriminant
+    (only sound if the local is not re-assigned in between: checked by single definition)"""
+    if len(an.defs(local)) != 1:
+        return None
+    names = None
+    doms = an.doms(('normal', 'cancel')).get(bb) or an.doms(('normal',)).get(bb) or ()
+    for d in doms:
+        t = an.b.blocks[d].term
+        if t.kind != 'switch' or 'on' not in t.j or t.j['on']['l'] != local or t.j['on']['pr'] or not t.j.get('variants'):
+            continue
+        reach_by = set()
+        for lab, tgt in t.switch_arms():
+            if tgt == bb or bb in an.reach([tgt], ('normal', 'cancel'), avoid=[d]):
+                reach_by.add(lab)
+        names = reach_by if names is None else (names & reach_by)
+    return names
